@@ -21,7 +21,7 @@ func init() {
 			"R2: in both backends every record stored/encoded by Create, Put, PutMany and CasByVersion got its Version from ulidutils.NewID() by a store that dominates the write with no other write to the field in between; NewID is the string form of ulid.Make() (process-wide locked monotonic source). " +
 			"R3 (redis): Create's only write command is SETNX and it succeeds only on SETNX's ok edge; CasByVersion reads through the Tx and writes in the MULTI/EXEC pipeline of a WATCH on the same key, guarded by version equality. " +
 			"R4 (redis): a lost optimistic transaction (redis.TxFailedErr) is reported as ErrConflict. " +
-			"R5: version mismatch -> ErrConflict, missing key -> ErrNotExist, present key -> ErrExist on the deciding edges of both backends (loser outcomes). R6: Put returns the record it wrote itself (not one read back). R7: PutMany stores every record of the batch. R4 also: after a lost WATCH/EXEC transaction the key is read again and the error of that read reaches the result (a transaction is also lost when the key was deleted/expired: the answer is then ErrNotExist, not ErrConflict). R8: the in-memory table stores Record.Copy() of what it is given and hands out copies (no caller can write memory the table holds). R8 also: Record.Copy() hands on every field of every record (no path to its return leaves a field of the result unassigned while the receiver's may be set, and what is assigned comes from that field) and shares no memory with its receiver (every slice/pointer/map field of the result is nil or freshly allocated on every path on which the receiver's field is not nil). R10: a record's value and TTL are written by one redis command (no EXPIRE/PEXPIRE/EXPIREAT/PERSIST/SetArgs/GETEX anywhere in the backend: a TTL written by a command of its own - also inside a pipeline - can land on another writer's value). R11: every redis command addresses the mapped key (the rule of C03.R10). R12 (in-memory): every acquisition of the service mutex is released on every path to a return (an Unlock or a deferred Unlock on the path): an operation that returns with the mutex held ends every later operation. R13 (redis): PutMany reports success only after a pass over the whole batch that writes every record - a loop left over its exhaustion edge that writes the element on every round, record by record or into the argument list of the one MSET, which is then sent (a batch command for a prefix of the batch, or a pass that ends early, leaves records with their old value and old version). R14 (redis): Create, Put, CasByVersion (and every private function of the backend that is handed one record and can issue a write command) report success only behind the redis command that writes the record - directly, inside the transaction callback, or in a helper / function literal every success exit of which lies behind it (an exit that reports success without the command leaves the old record under its old version: no order of the operations explains the following reads, and a stale CasByVersion still wins).",
+			"R5: version mismatch -> ErrConflict, missing key -> ErrNotExist, present key -> ErrExist on the deciding edges of both backends (loser outcomes). R6: Put returns the record it wrote itself (not one read back). R7: PutMany stores every record of the batch. R4 also: after a lost WATCH/EXEC transaction the key is read again and the error of that read reaches the result (a transaction is also lost when the key was deleted/expired: the answer is then ErrNotExist, not ErrConflict). R8: the in-memory table stores Record.Copy() of what it is given and hands out copies (no caller can write memory the table holds). R8 also: Record.Copy() hands on every field of every record (no path to its return leaves a field of the result unassigned while the receiver's may be set, and what is assigned comes from that field) and shares no memory with its receiver (every slice/pointer/map field of the result is nil or freshly allocated on every path on which the receiver's field is not nil). R10: a record's value and TTL are written by one redis command (no EXPIRE/PEXPIRE/EXPIREAT/PERSIST/SetArgs/GETEX anywhere in the backend: a TTL written by a command of its own - also inside a pipeline - can land on another writer's value). R11: every redis command addresses the mapped key (the rule of C03.R10). R12 (in-memory): every acquisition of the service mutex is released on every path to a return (an Unlock or a deferred Unlock on the path): an operation that returns with the mutex held ends every later operation. R13 (redis): PutMany reports success only after a pass over the whole batch that writes every record - a loop left over its exhaustion edge that writes the element on every round, record by record or into the argument list of the one MSET, which is then sent (a batch command for a prefix of the batch, or a pass that ends early, leaves records with their old value and old version). R14 (redis): Create, Put, CasByVersion (and every private function of the backend that is handed one record and can issue a write command) report success only behind the redis command that writes the record - directly, inside the transaction callback, or in a helper / function literal every success exit of which lies behind it (an exit that reports success without the command leaves the old record under its old version: no order of the operations explains the following reads, and a stale CasByVersion still wins). R15 (redis): command census - no function a read operation (Get, GetMany, ListKeys, WaitForVersionChange) can reach issues a command that writes, re-times or removes a key, and a key-removing command (DEL, UNLINK, GETDEL, FLUSH*) is issued by Delete only, or queued on a MULTI/EXEC pipeline: a read followed by a removal is two steps at the server, the removal deletes by key whatever a concurrent writer has stored in between (a successful write lost without a Delete in the history).",
 		NotDecided: "linearizability of concurrent histories; uniqueness of ULIDs and atomicity of SETNX / WATCH-EXEC inside the redis server (trusted).",
 		Trusted:    []string{"go-redis: SetNX is atomic, Watch returns redis.TxFailedErr when EXEC aborts", "oklog/ulid: ulid.Make() is safe for concurrent use and monotonic"},
 	})
@@ -39,7 +39,7 @@ func init() {
 			"R9: the redis key mapping is injective - the storage key reaches the redis key only through prefixing (concatenation, Sprintf with a constant %s/%v/%q format); slicing, trimming, folding, cleaning or a merge of alternatives is a lossy step (each is its own obligation). R10: the key/pattern argument of every redis command is the mapped key. " +
 			"R11: a command taking a caller-sized list (MGET, MSET) is issued only under a guard that the list is non-empty (the server rejects the empty form, the contract answers an empty batch with an empty result). R12: the in-memory table stores and hands out copies of records (Record.Copy()), so that Get returns what was last WRITTEN, not what the writer or another reader did to its buffer afterwards. Copy() hands on every field of every record (a lifetime dropped for some records keeps them for good in one backend only). R1 also: the in-memory CasByVersion reports ErrConflict only after the expiry decision (an expired record that was not purged yet is a missing key). R3 also: every decode of a stored record starts from an empty message (proto.Unmarshal, or a merging decode into a message that is local to the call and used once: proto3 leaves empty values and absent expiries off the wire). R13 (redis): PutMany reports success only after a pass over the whole batch that writes every record (the rule of C02.R13: Get must return what was last written). R14: arithmetic on a saturating time difference (Time.Sub, time.Until: +-MaxInt64 ns beyond ~292 years) stays inside int64 - every +, -, * on such a value is bounded by the guards that dominate it (interval evaluation); otherwise a far-future expiration wraps to a negative TTL, is clamped to the minimum and the record is gone in redis while the in-memory backend keeps it. " +
 			"R15-R17 (in-memory): an expired record is a missing key - the redis server removes it by itself, so every redis operation answers for it as for a key never written, and the in-memory backend returns the same only through its own expiry decisions. R15: every lookup of the record table passes the expiry decision (no expiration / not before now / expired) before it influences a result or a mutation, every range over the table filters the keys it collects through such a decision on every path (no flag or mode switches the filter off), an error-flavoured live-lookup helper reports no error only for a live record (the result-deciding clauses of C06.R1). R16: a record leaves the table only on the expired edge of a decision taken on a lookup under the same lock acquisition, or in Delete when found (C06.R9: anything else drops a live record in one backend only). R17: the decision compares with a reading of the clock taken after the goroutine last waited (C06.R10). " +
-			"R18 (redis): Create, Put, CasByVersion (and every private function of the backend that is handed one record and can issue a write command) report success only behind the redis command that writes the record - directly, inside the transaction callback, or in a helper / function literal every success exit of which lies behind it; with R13 this covers every record of PutMany (a shortcut that returns success without the command - for a record that is already expired, an unchanged value - leaves the old record readable under its old version, while the in-memory backend replaces it). R19 (redis): the relative TTL handed to SET/SETNX is computed from a clock reading taken for this issue of the command: no wait and no way round a loop lies between the reading and the command, and a function literal that issues the command with a TTL computed outside it is invoked once and not behind a wait by whoever it is handed to (go-redis Watch/TxPipelined: trusted; a repository function: decided on its body) - a stale TTL keeps the key in redis beyond ExpiresAt, where the in-memory backend already reports it missing.",
+			"R18 (redis): Create, Put, CasByVersion (and every private function of the backend that is handed one record and can issue a write command) report success only behind the redis command that writes the record - directly, inside the transaction callback, or in a helper / function literal every success exit of which lies behind it; with R13 this covers every record of PutMany (a shortcut that returns success without the command - for a record that is already expired, an unchanged value - leaves the old record readable under its old version, while the in-memory backend replaces it). R19 (redis): the relative TTL handed to SET/SETNX is computed from a clock reading taken for this issue of the command: no wait and no way round a loop lies between the reading and the command, and a function literal that issues the command with a TTL computed outside it is invoked once and not behind a wait by whoever it is handed to (go-redis Watch/TxPipelined: trusted; a repository function: decided on its body) - a stale TTL keeps the key in redis beyond ExpiresAt, where the in-memory backend already reports it missing. R14 also: no record expiration is turned into an integer that can wrap (Time.UnixNano/UnixMicro/UnixMilli of ExpiresAt, compared or kept): a far-future expiration becomes negative and the record is dropped in one backend only. R20 (redis): a lost WATCH/EXEC transaction is followed by a read of the key whose error reaches the result (the second clause of C02.R4): CasByVersion answers ErrNotExist, not ErrConflict, when the key was removed or expired before EXEC.",
 		NotDecided: "equality of results for all operation sequences. Known value-level divergences outside these rules: redis turns an empty value into nil (equal under bytes.Equal); the glob dialects of redis MATCH and gobwas/glob differ beyond * and ? ({a,b}, [!a]).",
 	})
 	register(&Check{
@@ -49,7 +49,7 @@ func init() {
 		Technique: "static analysis: path queries requiring an expiry decision edge between every table lookup and any conclusion drawn from it (sibling contradiction rule), phi/guard analysis of the parked waiter's timer, argument provenance of redis TTLs, backward slice of the redis TTL to its clock readings with path queries for waits and loops between reading and command and invocation summaries (once, not behind a wait) of the functions that are handed the issuing literal (go/ssa)",
 		Explanation: "R1 (in-memory): every lookup of the record table is followed, before it can influence a result or a mutation, by the expiry decision (no-expiry / not-before-now / expired edges); the expired edge deletes the record and notifies its waiters; ranges over the table filter through such a lookup. " +
 			"R2 (in-memory): the parked WaitForVersionChange has a timer case derived from the record's ExpiresAt on every path where ExpiresAt is non-nil. " +
-			"R3 (redis): every SET/SETNX receives expiration(record.ExpiresAt, time.Now()) of the record being written. R4: expiration maps nil to 0 and clamps a non-nil expiry to a positive TTL. R5: the MSET batch only takes records whose ExpiresAt is nil. R7: the in-memory table stores and hands out copies of records, so the stored *time.Time cannot be changed from outside (a live record dropped early / an expired one kept alive). The copy keeps the expiry of every record: no path of Copy() leaves ExpiresAt unassigned while the receiver's is set. R8: value and TTL are written by one command (the rule of C02.R10; SetArgs' ExpireAt has second resolution). R9 (in-memory): a record leaves the table only on the expired edge of the expiry decision (or in Delete, when found), and only after the table was looked up under the same key in the same lock acquisition - a delete separated from its decision drops whatever record is stored now, also one that does not expire. R10 (in-memory): every expiry decision compares with a clock reading taken after the goroutine last parked (no path from a blocking select / receive / Sleep to the decision avoids the clock read; moments handed to helpers are followed to the call sites). R11: arithmetic on a saturating time difference stays inside int64 (the rule of C03.R14: a wrapped TTL / timer duration drops a record whose expiration lies in the far future). R12 (redis): the relative TTL of every SET/SETNX is computed from a clock reading taken for THIS issue of the command - in the issuing function no path from a wait (blocking select, channel operation, Sleep) to the command avoids the reading and no path leads from the command back to itself without it (retry loop); when the TTL or the moment is captured by the function literal that issues the command, the same holds where the literal is handed over and the function it is handed to invokes it once and not behind a wait (go-redis Watch/TxPipelined: trusted; a function of the repository: no path from one invocation of its parameter to another, no wait before one); a TTL handed in through a parameter of a private helper is followed to the call sites. A TTL that is stale by the time waited or spent in failed attempts keeps the key alive that much longer than ExpiresAt.",
+			"R3 (redis): every SET/SETNX receives expiration(record.ExpiresAt, time.Now()) of the record being written. R4: expiration maps nil to 0 and clamps a non-nil expiry to a positive TTL. R5: the MSET batch only takes records whose ExpiresAt is nil. R7: the in-memory table stores and hands out copies of records, so the stored *time.Time cannot be changed from outside (a live record dropped early / an expired one kept alive). The copy keeps the expiry of every record: no path of Copy() leaves ExpiresAt unassigned while the receiver's is set. R8: value and TTL are written by one command (the rule of C02.R10; SetArgs' ExpireAt has second resolution). R9 (in-memory): a record leaves the table only on the expired edge of the expiry decision (or in Delete, when found), and only after the table was looked up under the same key in the same lock acquisition - a delete separated from its decision drops whatever record is stored now, also one that does not expire. R10 (in-memory): every expiry decision compares with a clock reading taken after the goroutine last parked (no path from a blocking select / receive / Sleep to the decision avoids the clock read; moments handed to helpers are followed to the call sites). R11: arithmetic on a saturating time difference stays inside int64 (the rule of C03.R14: a wrapped TTL / timer duration drops a record whose expiration lies in the far future). R12 (redis): the relative TTL of every SET/SETNX is computed from a clock reading taken for THIS issue of the command - in the issuing function no path from a wait (blocking select, channel operation, Sleep) to the command avoids the reading and no path leads from the command back to itself without it (retry loop); when the TTL or the moment is captured by the function literal that issues the command, the same holds where the literal is handed over and the function it is handed to invokes it once and not behind a wait (go-redis Watch/TxPipelined: trusted; a function of the repository: no path from one invocation of its parameter to another, no wait before one); a TTL handed in through a parameter of a private helper is followed to the call sites. A TTL that is stale by the time waited or spent in failed attempts keeps the key alive that much longer than ExpiresAt. R11 also: no record expiration is turned into an integer that can wrap (Time.UnixNano: defined for 1678..2262 only; UnixMicro/UnixMilli) when the integer is compared, used in arithmetic, stored or handed on - the expiry decision compares time.Time values or Unix() seconds; a year-9999 expiration as UnixNano is negative and the record is dropped at first touch (decided before the in-memory roles are resolved, so that a changed representation of the expiry is named and not only reported as a lost anchor). R13 (redis): on the TxFailedErr edge of CasByVersion the key is read again and the error of that read reaches the result (the second clause of C02.R4): a transaction is also lost when the watched key EXPIRED between the read and EXEC, and a CAS on an expired key answers ErrNotExist like a CAS on a deleted one, not ErrConflict.",
 		NotDecided: "that the redis server honours the TTL; clock effects; 'never dropped early' as a timing statement.",
 	})
 	register(&Check{
@@ -258,12 +258,14 @@ func runC02(c *Ctx) {
 	c.inmemExitsUnlocked(im, "C02.R12")
 	c.redisBatchComplete(rd, "C02.R13")
 	c.redisSuccessWritten(rd, "C02.R14")
+	c.redisCommandCensus(rd, "C02.R15")
 	c.inmemClassEdges(im, "C02.R5", "")
 	c.redisClassEdges(rd, "C02.R5", "C02.R5")
 	c.R.Floor("C02.R5", 10)
 }
 
 func runC03(c *Ctx) {
+	c.expiryIntegerNoWrap("C03.R14") // before the roles: it names a change of the expiry representation the role resolution gives up on
 	im := resolveInmemRoles(c)
 	rd := resolveRedisRoles(c)
 	c.inmemClassEdges(im, "C03.R1", "C03.R2")
@@ -290,9 +292,11 @@ func runC03(c *Ctx) {
 	c.inmemExpiredIsAbsent(im, "C03.R15", "C03.R16", "C03.R17")
 	c.redisSuccessWritten(rd, "C03.R18")
 	c.redisTTLFresh(rd, "C03.R19")
+	c.redisLostTxReread(rd, "C03.R20")
 }
 
 func runC06(c *Ctx) {
+	c.expiryIntegerNoWrap("C06.R11") // before the roles: it names a change of the expiry representation the role resolution gives up on
 	im := resolveInmemRoles(c)
 	rd := resolveRedisRoles(c)
 	c.inmemCriticalSections(im, "C06.R6")
@@ -306,6 +310,7 @@ func runC06(c *Ctx) {
 	c.durationArithmeticBounded("C06.R11", "redis TTL mapping", rd.expiration, rd.all)
 	c.durationArithmeticBounded("C06.R11", "in-memory expiry timer", im.storage["WaitForVersionChange"], im.all)
 	c.redisTTLFresh(rd, "C06.R12")
+	c.redisLostTxReread(rd, "C06.R13")
 }
 
 func runC07(c *Ctx) {
